@@ -671,6 +671,163 @@ theorem foldRegression_spec (alpha : List α) (m : Nat) (hm : m < alpha.length) 
   rw [List.getD_eq_getElem?_getD]
   simp [hi]
 
+/-! ### feasibility along the whole main loop (selection, update, shrinking, reconstruction) -/
+
+/-- the point is feasible, the arrays have the size `n` of the problem, `Σ y α = c` -/
+def Feas (n : Nat) (c : α) (s : St α) : Prop :=
+  Box s ∧ s.y.length = s.alpha.length ∧ s.alpha.length = n ∧ s.nactive ≤ n ∧ ySum s = c
+
+theorem feas_congr (n : Nat) (c : α) (s t : St α) (ha : t.alpha = s.alpha) (hy : t.y = s.y)
+    (hb : t.bounds = s.bounds) (hn : t.nactive ≤ n) (h : Feas n c s) : Feas n c t := by
+  obtain ⟨h1, h2, h3, _, h5⟩ := h
+  refine ⟨?_, by rw [hy, ha]; exact h2, by rw [ha]; exact h3, hn, ?_⟩
+  · unfold Box at h1 ⊢; rw [ha, hb]; exact h1
+  · unfold ySum tgt at h5 ⊢; rw [ha, hy]; exact h5
+
+theorem reconstructGradient_core (e : Env α) (s : St α) :
+    (reconstructGradient e s).alpha = s.alpha ∧ (reconstructGradient e s).y = s.y ∧
+    (reconstructGradient e s).bounds = s.bounds ∧ (reconstructGradient e s).nactive = s.nactive := by
+  unfold reconstructGradient
+  dsimp only
+  split_ifs <;> exact ⟨rfl, rfl, rfl, rfl⟩
+
+theorem swapIdx_invol (i j k : Nat) : swapIdx i j (swapIdx i j k) = k := by
+  unfold swapIdx
+  split_ifs <;> simp_all
+
+theorem swap_feas (n : Nat) (c : α) (s : St α) (i j : Nat) (hi : i < n) (hj : j < n)
+    (h : Feas n c s) : Feas n c (swap s i j) := by
+  obtain ⟨⟨hbl, hbox⟩, hyl, hal, hna, hsum⟩ := h
+  have hi' : i < s.alpha.length := hal ▸ hi
+  have hj' : j < s.alpha.length := hal ▸ hj
+  refine ⟨⟨?_, ?_⟩, ?_, ?_, hna, ?_⟩
+  · simp only [swap, swapL_length]; exact hbl
+  · intro k hk
+    simp only [swap, swapL_length] at hk ⊢
+    rw [gf_swapL _ i j k hi' hj', gf_swapL _ i j k (hbl ▸ hi') (hbl ▸ hj')]
+    exact hbox _ (swapIdx_lt i j k _ hi' hj' hk)
+  · simp only [swap, swapL_length]; exact hyl
+  · simp only [swap, swapL_length]; exact hal
+  · rw [← hsum]
+    unfold ySum tgt
+    simp only [swap, swapL_length]
+    apply Finset.sum_nbij' (swapIdx i j) (swapIdx i j)
+    · intro k hk
+      exact Finset.mem_range.mpr (swapIdx_lt i j k _ hi' hj' (Finset.mem_range.mp hk))
+    · intro k hk
+      exact Finset.mem_range.mpr (swapIdx_lt i j k _ hi' hj' (Finset.mem_range.mp hk))
+    · intro k _; exact swapIdx_invol i j k
+    · intro k _; exact swapIdx_invol i j k
+    · intro k _
+      simp only [gf_swapL _ i j k hi' hj', gb_swapL _ i j k (hyl ▸ hi') (hyl ▸ hj')]
+
+theorem shrinkInner_feas (n : Nat) (c : α) (sh : St α → Nat → Bool) (i : Nat) (fuel : Nat) (s : St α)
+    (hlt : s.nactive < n) (h : Feas n c s) : Feas n c (shrinkInner sh i fuel s) := by
+  induction fuel generalizing s with
+  | zero => exact h
+  | succ fuel ih =>
+    unfold shrinkInner
+    split_ifs with h1 h2
+    · exact swap_feas n c s i s.nactive (by omega) hlt h
+    · apply ih
+      · show s.nactive - 1 < n; omega
+      · exact feas_congr n c s _ rfl rfl rfl (by show s.nactive - 1 ≤ n; omega) h
+    · exact h
+
+theorem shrinkOuter_feas (n : Nat) (c : α) (sh : St α → Nat → Bool) (fuel i : Nat) (s : St α)
+    (h : Feas n c s) : Feas n c (shrinkOuter sh fuel i s) := by
+  induction fuel generalizing s i with
+  | zero => exact h
+  | succ fuel ih =>
+    unfold shrinkOuter
+    by_cases h1 : i < s.nactive
+    · simp only [h1, if_true]
+      apply ih
+      split_ifs with h2
+      · have hn := h.2.2.2.1
+        apply shrinkInner_feas
+        · show s.nactive - 1 < n; omega
+        · exact feas_congr n c s _ rfl rfl rfl (by show s.nactive - 1 ≤ n; omega) h
+      · exact h
+    · simp only [h1, if_false]; exact h
+
+theorem doShrinking_feas (n : Nat) (c : α) (e : Env α) (s : St α) (h : Feas n c s) :
+    Feas n c (doShrinking e s) := by
+  have hrec : ∀ s : St α, Feas n c s →
+      Feas n c { reconstructGradient e { s with unshrink := true } with
+                 nactive := ntotal (reconstructGradient e { s with unshrink := true }) } := by
+    intro s hs
+    obtain ⟨a, b, c', _⟩ := reconstructGradient_core e { s with unshrink := true }
+    refine feas_congr n c s _ a b c' ?_ hs
+    show ntotal _ ≤ n
+    unfold ntotal
+    rw [a]
+    exact le_of_eq hs.2.2.1
+  unfold doShrinking
+  split_ifs
+  · unfold doShrinkingNu
+    dsimp only
+    apply shrinkOuter_feas
+    split_ifs
+    · exact hrec s h
+    · exact h
+  · unfold doShrinkingC
+    dsimp only
+    apply shrinkOuter_feas
+    split_ifs
+    · exact hrec s h
+    · exact h
+
+theorem update_nactive (e : Env α) (s : St α) (i j : Nat) : (update e s i j).nactive = s.nactive := by
+  unfold update; dsimp only; split_ifs <;> rfl
+
+theorem update_feas (n : Nat) (c : α) (e : Env α) (s : St α) (i j : Nat) (hij : i ≠ j)
+    (hi : i < s.nactive) (hj : j < s.nactive) (h : Feas n c s) : Feas n c (update e s i j) := by
+  obtain ⟨hb, hyl, hal, hna, hsum⟩ := h
+  have hi' : i < s.alpha.length := by omega
+  have hj' : j < s.alpha.length := by omega
+  refine ⟨update_box e s i j hij hi' hj' hb, ?_, ?_, ?_, ?_⟩
+  · rw [update_y, update_alpha_length]; exact hyl
+  · rw [update_alpha_length]; exact hal
+  · rw [update_nactive]; exact hna
+  · rw [update_ySum e s i j hij hi' hj' hb]; exact hsum
+
+/-- the triple `select_working_set` returned, spelled out -/
+theorem select_eq (e : Env α) (s : St α) (h : (selectWorkingSet e s).2.2 = false) :
+    selectWorkingSet e s = ((selectWorkingSet e s).1, (selectWorkingSet e s).2.1, false) := by
+  rw [← h]
+
+theorem solveLoop_feas (n : Nat) (c : α) (e : Env α) (shrinking : Bool) (fuel : Nat) (s : St α)
+    (iter counter : Nat) (h : Feas n c s) : Feas n c (solveLoop e shrinking fuel s iter counter).1 := by
+  induction fuel generalizing s iter counter with
+  | zero => exact h
+  | succ fuel ih =>
+    unfold solveLoop
+    dsimp only
+    have h1 : Feas n c (if (counter - 1 == 0 && shrinking) = true then doShrinking e s else s) := by
+      split_ifs
+      · exact doShrinking_feas n c e s h
+      · exact h
+    generalize (if (counter - 1 == 0 && shrinking) = true then doShrinking e s else s) = s1 at h1 ⊢
+    generalize (if (counter - 1 == 0) = true then min (ntotal s) 1000 else counter - 1) = c1
+    split_ifs with ho ho2
+    · -- optimal twice: the loop ends on the re-activated state
+      obtain ⟨a, b, c', _⟩ := reconstructGradient_core e s1
+      refine feas_congr n c s1 _ a b c' ?_ h1
+      show ntotal _ ≤ n
+      unfold ntotal; rw [a]; exact le_of_eq h1.2.2.1
+    · apply ih
+      have h3 : Feas n c { reconstructGradient e s1 with nactive := ntotal (reconstructGradient e s1) } := by
+        obtain ⟨a, b, c', _⟩ := reconstructGradient_core e s1
+        refine feas_congr n c s1 _ a b c' ?_ h1
+        show ntotal _ ≤ n
+        unfold ntotal; rw [a]; exact le_of_eq h1.2.2.1
+      have hv := selectWorkingSet_valid e _ _ _ (select_eq e _ (by simpa using ho2))
+      exact update_feas n c e _ _ _ hv.1 hv.2.1 hv.2.2 h3
+    · apply ih
+      have hv := selectWorkingSet_valid e _ _ _ (select_eq e _ (by simpa using ho))
+      exact update_feas n c e _ _ _ hv.1 hv.2.1 hv.2.2 h1
+
 end select
 
 end LinfaSpec.Smo
